@@ -81,6 +81,18 @@ func ReadAny() int {
 	return n
 }
 
+// Around: the host function it calls loads a version of this package while this frame is active; afterwards the frame
+// still sees and updates the package-level state (0 is returned when no update was lost)
+func Around() int {
+	before := Counter
+	Counter += 5
+	hostReload()
+	Counter++
+	Counter++
+	Counter -= 7
+	return Counter - before
+}
+
 func CaptureInst() { Inst = &T{X: 5, H: Tag} }
 func CaptureBM() {
 	BM = Inst.M
@@ -100,9 +112,16 @@ func CallMethod1() int { return Inst.M1(4) + Inst.MV(5, 6) - Inst.MV(7) }
 	}
 	switch lv % 4 {
 	case 3: // the version-dependent function lives in an IMPORTED package; reloads go through the importer
-		utag := fmt.Sprintf("package u\n\nvar Loads int = %d\n\nfunc Tag() int {\n\tz := 0\n%s\t_ = z\n\treturn %d\n}\n", k, filler, k)
+		// the imported package has a function of its own named println, declared AFTER the function that calls it: the
+		// call means the package's function on every load (Tag is off by 1000 when the builtin was called instead);
+		// every second variant has the package at an import path of two elements
+		utag := fmt.Sprintf("package u\n\nvar Loads int = %d\n\nvar Log int\n\nfunc Tag() int {\n\tz := 0\n%s\t_ = z\n\tbefore := Log\n\tprintln(\"tag\")\n\treturn %d + (Log-before-1)*1000\n}\n\nfunc println(s string) {\n\tLog++\n}\n", k, filler, k)
 		mainTag := "func Tag() int {\n\treturn u.Tag() + u.Loads - u.Loads\n}\n\n" + sig
-		return map[string]string{"u/u.go": utag, "main/main.go": "package main\n\nimport (\n\t\"errors\"\n\t\"u\"\n)\n\n" + vars + typ + mainTag + meth + rest + extra}
+		upath := "u"
+		if (lv/4)%2 == 1 {
+			upath = "lib/u"
+		}
+		return map[string]string{upath + "/u.go": utag, "main/main.go": "package main\n\nimport (\n\t\"errors\"\n\t\"" + upath + "\"\n)\n\n" + vars + typ + mainTag + meth + rest + extra}
 	case 0:
 		return map[string]string{"main/main.go": "package main\n\nimport \"errors\"\n\n" + vars + typ + tag + meth + rest + extra}
 	case 1: // different declaration order
@@ -112,13 +131,16 @@ func CallMethod1() int { return Inst.M1(4) + Inst.MV(5, 6) - Inst.MV(7) }
 	}
 }
 
+var c17Fresh int
+
 func c17Replay(c *Ctx, hist []reloadStep, lv int) {
 	var out bytes.Buffer
 	vm := goat.New(goat.WithStdout(&out))
 	var fv, hostBM goat.Value
 	haveHostBM := false
+	loaded := false
 	fail := func(i int, what string) {
-		c.violate(hashKey(fmt.Sprint(hist, lv%4)), fmt.Sprintf("reload history %v (layout %d): step %d %s: %s", histText(hist), lv%4, i+1, hist[i].Op, what),
+		c.violate(hashKey(fmt.Sprint(hist, lv%8)), fmt.Sprintf("reload history %v (layout %d): step %d %s: %s", histText(hist), lv%8, i+1, hist[i].Op, what),
 			map[string]any{"history": hist, "layout": lv % 4, "failed_step": i + 1, "sources": map[string]any{"v1": c17Source(1, lv), "v2": c17Source(2, lv), "v3": c17Source(3, lv)}})
 	}
 	call1 := func(name string, args ...goat.Value) (int, error) {
@@ -137,8 +159,35 @@ func c17Replay(c *Ctx, hist []reloadStep, lv int) {
 		check := true
 		switch st.Op {
 		case "load":
-			err = vm.Load(mapFS(c17Source(st.Arg, lv)), "main")
 			check = false
+			if loaded && (i+lv)%8 == 1 {
+				// the same load, made by a host function while a script function of the package is running; the source
+				// carries a few hundred names and literals never seen before, so the VM's tables grow during the load
+				src := c17Source(st.Arg, lv)
+				c17Fresh++
+				var fb strings.Builder
+				fmt.Fprintf(&fb, "package main\n\nfunc Fill%d() int {\n\tn := 0\n", c17Fresh)
+				for k := 0; k < 300; k++ {
+					fmt.Fprintf(&fb, "\tn += len(\"fresh_%d_%d\")\n", c17Fresh, k)
+				}
+				fb.WriteString("\treturn n\n}\n")
+				src["main/zz_fill.go"] = fb.String()
+				var lerr error
+				vm.Set("main.hostReload", goat.NewFunc(0, 0, func(vm *goat.VM, args []goat.Value) {
+					lerr = vm.Load(mapFS(src), "main")
+				}))
+				got, err = call1("main.Around")
+				if err == nil && lerr != nil {
+					err = lerr
+				}
+				if err == nil && got != 0 {
+					fail(i, fmt.Sprintf("a function that was running while version %d was loaded lost %d of its updates to a package-level variable", st.Arg, got))
+					return
+				}
+				break
+			}
+			err = vm.Load(mapFS(c17Source(st.Arg, lv)), "main")
+			loaded = true
 		case "call-direct":
 			got, err = call1("main.Tag")
 			if err == nil && got == st.Want {
